@@ -143,6 +143,17 @@ def _atomic_margin_constraint(goal, m):
     return None
 
 
+def _consts(e):
+    out = set()
+    stack = [e]
+    while stack:
+        t = stack.pop()
+        if z3.is_const(t) and t.decl().kind() == z3.Z3_OP_UNINTERPRETED:
+            out.add(t.decl().name())
+        stack.extend(t.children())
+    return out
+
+
 class Rec:
     """Per-case recorder: obligations with verdicts, twins, vacuity, candidate violations."""
 
@@ -233,6 +244,11 @@ class Rec:
                         self.obligations.append(entry)
                         self.distinct.add(name)
                         return True
+            # power atoms are independent positive unknowns in the query (an over-approximation); for a replayable witness
+            # pin the discount rate(s) to concrete values and the atoms to their true values
+            env2 = self._realistic_atoms(assume, goal_n, goal if margin else None)
+            if env2 is not None:
+                env = env2
             cand = dict(name=name, env=env, info=info or {}, form=form)
             if known is not None:
                 cand['known'] = known
@@ -245,6 +261,63 @@ class Rec:
             self.samples.append(dict(case=self.case_id, obligation=name, form=form, verdict=entry['verdict'],
                                      goal=str(z3.simplify(goal))[:400]))
         return r == z3.unsat
+
+    def _realistic_atoms(self, assume, goal_n, goal):
+        from .sym import atom_info, evalf
+        from fractions import Fraction
+        info = atom_info()
+        if not info:
+            return None
+        bases = set()
+        for nm, (b, q) in info.items():
+            for c in _consts(b):
+                bases.add(c)
+        if not bases:
+            return None
+        mc = _atomic_margin_constraint(goal, 1e-3) if goal is not None else None
+        for w in (Fraction(1, 4), Fraction(1, 1), Fraction(7, 100)):
+            pin = [z3.Real(c) == z3.RealVal(str(w)) for c in bases]
+            envw = {c: float(w) for c in bases}
+            try:
+                for nm, (b, q) in info.items():
+                    v = float(evalf(b, envw)) ** float(q)
+                    pin.append(z3.Real(nm) == z3.RealVal(str(Fraction(v).limit_denominator(10 ** 12))))
+            except KeyError:
+                return None
+            extra = [goal_n] + pin + ([mc] if mc is not None else [])
+            r, s, _ = self._check(assume, extra)
+            if r == z3.sat:
+                return model_env(s.model())
+        return None
+
+    def prove_each(self, name, assume, goals, form='Q3', info=None, margin=True):
+        """goals: list of (label, z3 Bool, extra info).  One shared (incremental) solver for the assumption set; a goal that
+        does not come back unsat there is re-decided by prove() on a fresh solver (which also builds the candidate)."""
+        t0 = time.time()
+        s = z3.Solver()
+        s.set('timeout', self.timeout_ms)
+        s.add(*assume)
+        ok = True
+        self.solver_s += time.time() - t0
+        for label, g, gi in goals:
+            t1 = time.time()
+            s.push()
+            s.add(z3.Not(g))
+            r = s.check()
+            s.pop()
+            el = time.time() - t1
+            self.solver_s += el
+            nm = '%s/%s' % (name, label)
+            if r == z3.unsat:
+                self.obligations.append(dict(name=nm, verdict='unsat', secs=round(el, 4), form=form))
+                self.distinct.add(nm)
+                if len(self.samples) < 3:
+                    self.samples.append(dict(case=self.case_id, obligation=nm, form=form, verdict='unsat', goal=str(z3.simplify(g))[:400]))
+            else:
+                i2 = dict(info or {}); i2.update(gi or {})
+                if not self.prove(nm, assume, g, form=form, info=i2, margin=margin):
+                    ok = False
+        return ok
 
     def prove_all(self, name, assume, goals, form='Q1', info=None, stop_on_fail=True):
         """goals: list of (label, z3 Bool); shared assumption set, one query each"""
